@@ -394,6 +394,9 @@ func driveInflatePoly(r *rand.Rand, w *writer, n int) {
 	for i := 0; i < n; i++ {
 		e := &InflateEv{Ev: "Inflate", Chk: chkFor("C05"), Api: []string{"InflatePaths64", "ClipperOffset"}[r.Intn(2)],
 			Paths: validPolySet(r), Jt: r.Intn(4), Et: 0, Miter4: []int64{4, 6, 8, 12, 20}[r.Intn(5)]}
+		if r.Intn(2) == 0 { // any order of the paths: holes before their outer boundary, islands first, ...
+			r.Shuffle(len(e.Paths), func(a, b int) { e.Paths[a], e.Paths[b] = e.Paths[b], e.Paths[a] })
+		}
 		e.Delta4 = deltaChoices[r.Intn(len(deltaChoices))]
 		if r.Intn(2) == 0 {
 			e.Delta4 = -e.Delta4
